@@ -25,6 +25,7 @@ RULE = (
     "instruments keep their data across save/load; plus edit histories (load - edit samples / envelopes / map / effect in place, optionally saving in between - save - load). non-trivial = a sample at index > 0, a non-default envelope, or non-zero editor fields"
     ' Also (added while the seeded-change rounds of DESIGN section 9 ran): Also: one Sample object in several slots, format byte patterns and white-space tails in names / maps / data, large samples, failed saves in the past, repeated saves / write_to variants / clone of loaded legacy instruments.'
 )
+RULE += " Rounds 12-14 of DESIGN section 9 added: files re-encoded with the older 40-byte sample records, sample fields assigned after loading; a fixed set of instruments in 12 differently started interpreters; probes with one envelope empty / switched off next to envelopes the pre-envelope fields cannot hold."
 ASSUMPTIONS = [
     "instrument record layout (400 bytes) from the struct comments quoted in sampler.py + the offsets in docs/sunvox-file-format.rst; sample record 44 bytes (start_pos at 0x28)",
     "legacy y conversion: y_old * 0x200 + range minimum, point count from the header",
